@@ -31,7 +31,7 @@ func (r *recorder) waitConnUps(n int, sv *server, d time.Duration) bool {
 		got := 0
 		for i := uint64(0); i < N; i++ {
 			s := &r.slots[i]
-			if s.ok.Load() && s.ev == "conn.up" && ports[s.addr] {
+			if s.ok.Load() && (s.ev == "conn.up" || s.ev == "conn.up.auth") && ports[s.addr] {
 				got++
 			}
 		}
@@ -84,6 +84,8 @@ func (r *recorder) writeTrace(path string, sc *Script, ncalls int) (int, []strin
 	gen := map[int]int{}
 	pendStart := map[uint64]*raw{} // goroutine -> its latest pkt.start
 	pendSeq := map[uint64]uint64{}
+	pendEconn := map[uintptr]uint64{} // socket -> goroutine of its pkt.start, until its conn.up
+	again := map[uint64]bool{}
 	chBind := map[uintptr][]binding{}
 	portBind := map[string]lk{}
 	idCall := map[string]int{}
@@ -97,7 +99,18 @@ func (r *recorder) writeTrace(path string, sc *Script, ncalls int) (int, []strin
 			}
 		case "pkt.start":
 			pendStart[s.gid], pendSeq[s.gid] = s, i
-		case "conn.up":
+			pendEconn[s.obj] = s.gid
+		case "conn.up", "conn.up.auth":
+			// conn.up: same goroutine as pkt.start. conn.up.auth: logged by the reader in handleAuthResponse; x is the socket
+			gid := s.gid
+			if s.ev == "conn.up.auth" {
+				g, ok := pendEconn[s.ptr]
+				if !ok {
+					again[i] = true // authentication "completed" once more on a socket that is installed already
+					continue
+				}
+				gid = g
+			}
 			k, ok := connIdx[s.obj]
 			if !ok {
 				k = len(connIdx) + 1
@@ -105,12 +118,13 @@ func (r *recorder) writeTrace(path string, sc *Script, ncalls int) (int, []strin
 			}
 			gen[k]++
 			l := lk{k, gen[k]}
-			ps := pendStart[s.gid]
+			ps := pendStart[gid]
 			if ps == nil {
 				return 0, nil, fmt.Errorf("conn.up without pkt.start (seq %d)", i)
 			}
-			chBind[ps.ptr] = append(chBind[ps.ptr], binding{pendSeq[s.gid], l})
-			delete(pendStart, s.gid)
+			chBind[ps.ptr] = append(chBind[ps.ptr], binding{pendSeq[gid], l})
+			delete(pendStart, gid)
+			delete(pendEconn, ps.obj)
 			if s.addr == "" {
 				return 0, nil, fmt.Errorf("conn.up without local address")
 			}
@@ -211,10 +225,13 @@ func (r *recorder) writeTrace(path string, sc *Script, ncalls int) (int, []strin
 			continue
 		}
 		switch s.ev {
-		case "pkt.start", "pkt.fwd", "rc.done", "conn.up.auth":
+		case "pkt.start", "pkt.fwd", "rc.done":
 			// identity bookkeeping / no counterpart in the specification
-		case "conn.up":
-			if !initial {
+		case "conn.up", "conn.up.auth":
+			if again[i] {
+				l := portBind[s.addr]
+				emit("conn.up.again", "c", l.k, "g", l.g)
+			} else if !initial {
 				l := portBind[s.addr]
 				emit("conn.up", "c", l.k, "g", l.g)
 			}
